@@ -257,6 +257,7 @@ func c14run(cs *c14case, r *rng, steps int, scripted []uint64) (events []uint64,
 			prev = cur
 		}
 	}
+	termWarned := false
 	observe := func() {
 		st := rr.VerifNodeState()
 		kind := uint64(0)
@@ -267,6 +268,13 @@ func c14run(cs *c14case, r *rng, steps int, scripted []uint64) (events []uint64,
 			kind = 2
 		}
 		t, vt, vc := stable.Triple()
+		if st.Term != t && !termWarned {
+			// the term a server acts in is always the one it has durably recorded (setCurrentTerm persists first):
+			// otherwise a restart resumes in an older term than the one it voted and acknowledged entries in
+			termWarned = true
+			mons = append(mons, fmt.Sprintf("C10|term-in-memory-differs-from-the-durable-term|the server acts in term %d, its stable store records term %d: a restart would resume in term %d", st.Term, t, t))
+			mons = append(mons, fmt.Sprintf("C06|term-in-memory-differs-from-the-durable-term|the server acts in term %d, its stable store records term %d: after a restart the term it reports would have decreased", st.Term, t))
+		}
 		_, has := stable.kv["LastVoteCand"]
 		vcand := uint64(0)
 		if has {
@@ -598,6 +606,12 @@ func runC14(cw *caseWriter, tier string, seed uint64) {
 		runScenarios(cw, 4, seed*100000, 16, 4)
 	} else {
 		runScenarios(cw, 4, seed*100000, 200, 4)
+	}
+	// leadership transfers: round trips and a target that acknowledges TimeoutNow and is cut off (family 16)
+	if tier == "quick" {
+		runScenarios(cw, 16, seed*100000, 8, 4)
+	} else {
+		runScenarios(cw, 16, seed*100000, 150, 4)
 	}
 }
 
